@@ -104,6 +104,9 @@ MUTANTS: dict[str, dict[str, list[tuple[str, str, str]]]] = {
                                                   'key = self.tag.states[key]', 'key = sorted(self.tag.states)[key]')],
     },
     'C17': {
+        'abtest-select-unsynchronised': [('forml/application/_strategy.py',
+                                          '        with self._lock:  # selections arrive from a pool of threads',
+                                          '        if True:')],
         'lowest-release-wins': [('forml/application/_strategy.py', 'for release in reversed(project.list()):',
                                  'for release in project.list():')],
         'empty-release-stops-the-search': [('forml/application/_strategy.py', """                except assetmod.Level.Listing.Empty:
@@ -248,9 +251,6 @@ MUTANTS: dict[str, dict[str, list[tuple[str, str, str]]]] = {
     'C16': {
         'cancelled-caller-kills-executor': [('forml/runtime/_service/prediction.py',
                                              '        outcome.set_running_or_notify_cancel()\n', '')],
-        'abtest-select-unsynchronised': [('forml/application/_strategy.py',
-                                          '        with self._lock:  # selections arrive from a pool of threads',
-                                          '        if True:')],
         'descriptor-race': [('forml/runtime/_service/dispatch.py',
                              'if application not in self._descriptors:  # may have been registered concurrently',
                              'if application not in updates:')],
